@@ -267,7 +267,7 @@ public:
 				*this << y;
 		}
 		else
-			write(&x[0], x.length());
+			write(&x[0], x.length() * (int)sizeof(T));
 		return *this;
 	}
 
